@@ -593,6 +593,30 @@ impl Property for C16 {
             let ops: Vec<Op> = (0..n).map(|_| Self::gen_op(&mut r, true)).collect();
             v.push(format!("vr {}", join(&enc_ops(&ops))));
         }
+        // large movements: positions close to the ends of i32 (theorem positions_within_i32 says
+        // exactly which of these streams the code must handle without overflow)
+        let mut r = rng.fork();
+        for _ in 0..n_vr / 6 {
+            let n = 1 + r.below(8) as usize;
+            let mut ops: Vec<Op> = vec![];
+            for _ in 0..n {
+                let big = |r: &mut Rng| -> i32 {
+                    *r.pick(&[i32::MAX, i32::MIN + 1, 1 << 30, -(1 << 30), (1 << 30) - 1, 1 << 29, -(1 << 29), 715_827_882, -715_827_883, 1, -1, 0])
+                };
+                ops.push(match r.below(9) {
+                    0 => Op::Right(big(&mut r)),
+                    1 => Op::Down(big(&mut r)),
+                    2 => Op::SetVar(var_of(r.below(4) as i64), big(&mut r)),
+                    3 => Op::Move(var_of(r.below(4) as i64)),
+                    4 => Op::Push,
+                    5 => Op::Pop,
+                    6 => Op::TypesetRule { height: 1, width: big(&mut r), move_h: r.chance(1, 2) },
+                    7 => Op::TypesetChar { char: 65, move_h: r.chance(1, 2) },
+                    _ => Op::BeginPage { parameters: [0; 10], previous_begin_page: -1 },
+                });
+            }
+            v.push(format!("vr {}", join(&enc_ops(&ops))));
+        }
         v
     }
 
@@ -647,6 +671,15 @@ impl Property for C16 {
                 for o in &ops {
                     out.tag(format!("vr:{}", op_name(o)));
                 }
+                // hypothesis of theorem positions_within_i32: the movements sum to less than 2^31
+                let mag: u128 = drv.ask(&format!("mag {rest}")).trim().parse().unwrap_or(u128::MAX);
+                if mag >= 1 << 31 {
+                    // positions leave i32: a checked build panics, an unchecked one wraps (outside the quantifier)
+                    out.tag("vr:outside-i32");
+                    out.nontrivial = false;
+                    return out;
+                }
+                out.tag(if mag >= 1 << 30 { "vr:mag>=2^30" } else if mag >= 1 << 24 { "vr:mag>=2^24" } else { "vr:mag-small" });
                 let m = drv.ask(case);
                 match caught(|| dvi::transforms::VarRemover::new(ops.clone()).collect::<Vec<Op>>()) {
                     Err(p) => out.fail(Kind::ImplPanic, "vr", format!("panic {}", strip_msg(&p)), format!("VarRemover panicked: {p}")),
